@@ -41,6 +41,7 @@ fn bounds(tier: Tier) -> Vec<(Fam, usize, u8)> {
             (Fam::Txt, 4, 1),
             (Fam::Rtx, 3, 1),
             (Fam::Rtx, 3, 3),
+            (Fam::Rtx, 4, 4),
             (Fam::Uni, 3, 0),
             (Fam::Arr, 4, 1),
             (Fam::Map, 4, 2),
@@ -51,6 +52,7 @@ fn bounds(tier: Tier) -> Vec<(Fam, usize, u8)> {
             (Fam::Txt, 6, 1),
             (Fam::Rtx, 4, 2),
             (Fam::Rtx, 4, 3),
+            (Fam::Rtx, 5, 4),
             (Fam::Uni, 4, 1),
             (Fam::Arr, 5, 2),
             (Fam::Map, 5, 2),
